@@ -99,6 +99,16 @@ def ed_B(ip):
     return SPoint(c_B)
 
 
+def ed_point_facts(ip, P):
+    """definitional facts about the sort EPt (= affine curve points with coordinates in [0,Q)): a point is on the curve and
+    is determined by its coordinates"""
+    t = P.t
+    _regpt(t)
+    sym.FACTS.add(f_oncurve(f_x(t), f_y(t)), "ed-point-on-curve (definition of EPt)")
+    sym.FACTS.add(f_aff(f_x(t), f_y(t)) == t, "ed-point-ext (definition of EPt)")
+    return True
+
+
 def ed_disable_auto_injectivity(ip):
     AUTO_ENC_INJ[0] = False
     return True
